@@ -6,7 +6,7 @@ package storeh
 // C04 / C06 / C08 / C14).  Input ($VERIF_SHRINK_IN, JSON): {"cfg": Config, "ops": [Op], "wrap": "%s" | "CSeq (%s)",
 // "crash": bool, "imports", "case_type", "chk"}.  Output: candidate 0 is the input history itself (re-run; the
 // internal random choices of Run — probes, rushed appends — come from a fixed stream), the others are one-step
-// reductions (an operation dropped, one height of an Append dropped, a scripted handler failure dropped, the
+// reductions (an operation dropped, one height of an Append dropped, a scripted handler failure dropped, a failing write attempt dropped, the
 // configuration simplified); each is run against the real code and emitted as a case; candidates.json holds
 // the scripts in the same order.
 import (
@@ -40,6 +40,7 @@ func cloneOps(ops []Op) []Op {
 	for i, o := range ops {
 		o.Heights = append([]uint64(nil), o.Heights...)
 		o.Fails = append([]Fail(nil), o.Fails...)
+		o.WFails = append([]int(nil), o.WFails...)
 		out[i] = o
 	}
 	return out
@@ -83,6 +84,16 @@ func TestShrinkStore(t *testing.T) {
 				cands = append(cands, cand{in.Cfg, ops, fmt.Sprintf("height %d of operation %d dropped", o.Heights[j], i)})
 			}
 		}
+		for j := range o.WFails {
+			ops := cloneOps(in.Ops)
+			ops[i].WFails = append(ops[i].WFails[:j], ops[i].WFails[j+1:]...)
+			cands = append(cands, cand{in.Cfg, ops, fmt.Sprintf("failing write attempt %d of operation %d dropped", o.WFails[j], i)})
+		}
+		if o.Retry {
+			ops := cloneOps(in.Ops)
+			ops[i].Retry = false
+			cands = append(cands, cand{in.Cfg, ops, fmt.Sprintf("operation %d is no longer marked as the retry", i)})
+		}
 		for j := range o.Fails {
 			ops := cloneOps(in.Ops)
 			ops[i].Fails = append(ops[i].Fails[:j], ops[i].Fails[j+1:]...)
@@ -99,7 +110,11 @@ func TestShrinkStore(t *testing.T) {
 	simpler("sequential delete path", func(c *Config) bool { ch := c.Par; c.Par = false; return ch })
 	simpler("plain datastore", func(c *Config) bool { ch := c.CtxDS; c.CtxDS = false; return ch })
 	simpler("no random GetRange probes", func(c *Config) bool { ch := c.Ranges != 0; c.Ranges = 0; return ch })
-	simpler("large caches", func(c *Config) bool { ch := c.Cache != 512 || c.ICache != 2048; c.Cache, c.ICache = 512, 2048; return ch })
+	simpler("large caches", func(c *Config) bool {
+		ch := c.Cache != 512 || c.ICache != 2048
+		c.Cache, c.ICache = 512, 2048
+		return ch
+	})
 	simpler("one handler fewer", func(c *Config) bool {
 		if c.NH == 0 {
 			return false
@@ -132,7 +147,12 @@ func TestShrinkStore(t *testing.T) {
 		if in.Crash {
 			term = res.CrashTerm
 		}
-		w.Add(fmt.Sprintf(in.Wrap, term), res.Descr, fmt.Sprint(k), true)
+		term = fmt.Sprintf(in.Wrap, term)
+		if res.FaultTerm != "" {
+			// a history with failing writes inside a DeleteRange is an [fcase] (case type case14 only)
+			term = "CFault (" + res.FaultTerm + ")"
+		}
+		w.Add(term, res.Descr, fmt.Sprint(k), true)
 	}
 	if err := w.Flush(); err != nil {
 		t.Fatal(err)
